@@ -951,7 +951,7 @@ func (e *Engine) inline(st *State, in ssa.Instruction, t callTarget, k func(*Sta
 		unsup("inlining depth exceeded at %s", fn.Name())
 	}
 	fr := &Frame{fn: fn, regs: map[ssa.Value]Val{}, parent: st.fr, depth: st.fr.depth + 1,
-		active: map[*ssa.BasicBlock]bool{}, visits: map[*ssa.BasicBlock]int{}, contract: e.specs.lookup(fn)}
+		active: map[*ssa.BasicBlock]bool{}, visits: map[*ssa.BasicBlock]int{}, contract: e.specs.lookup(fn), site: in}
 	args := t.args
 	if len(args) != len(fn.Params) {
 		unsup("inline %s: %d args for %d params", fn.Name(), len(args), len(fn.Params))
@@ -1776,16 +1776,58 @@ func hookKeys(st *State, in ssa.Instruction, t callTarget) []string {
 
 func (e *Engine) runHooks(st *State, in ssa.Instruction, t callTarget, after bool) {
 	c := st.fr.contract
+	// A helper without a contract that was inlined into a function under contract: the hooks of that
+	// contract which name a callee without an ordinal also apply to the calls the helper makes (moving
+	// a call into a helper does not take it out of the contract's reach). They are evaluated in the
+	// frame of the function under contract, at the point where the helper was called.
+	var owner *Frame
+	var site ssa.Instruction
+	if in != nil && c == nil && st.fr.depth > 0 && in.Parent() == st.fr.fn {
+		fr := st.fr
+		for fr.parent != nil && fr.contract == nil && fr.site != nil {
+			site = fr.site
+			fr = fr.parent
+		}
+		if fr.contract != nil && site != nil && site.Parent() == fr.fn {
+			owner, c = fr, fr.contract
+		}
+	}
 	if c == nil || len(c.Hooks) == 0 || in == nil || in.Parent() != st.fr.fn {
 		return
 	}
+	if owner != nil {
+		saved := st.fr
+		st.fr = owner
+		defer func() { st.fr = saved }()
+	}
+	assertName := func() string {
+		n := st.ctx.oblName(in, "assert")
+		if owner != nil {
+			if i := strings.Index(n, "#"); i >= 0 {
+				n = shortPkg(funcPkgPath(owner.fn)) + "." + funcKey(owner.fn) + n[i:]
+			}
+		}
+		return n
+	}
 	for _, key := range hookKeys(st, in, t) {
+		if owner != nil && strings.Contains(key, "#") {
+			continue
+		}
+		if len(c.Hooks[key]) > 0 {
+			if st.ctx.hooksFired == nil {
+				st.ctx.hooksFired = map[string]bool{}
+			}
+			st.ctx.hooksFired[key] = true
+		}
 		for i, h := range c.Hooks[key] {
 			if h.After != after {
 				continue
 			}
 			env := st.specEnv("hook")
 			env.scope = in.Block()
+			if owner != nil {
+				env.scope = site.Block()
+			}
 			names := paramNames(t)
 			for j, n := range names {
 				if j < len(t.args) {
@@ -1806,7 +1848,7 @@ func (e *Engine) runHooks(st *State, in ssa.Instruction, t callTarget, after boo
 			switch h.Kind {
 			case "assert":
 				tm, err := st.evalClause(env, h.Cl)
-				name := st.ctx.oblName(in, "assert") + fmt.Sprintf("/%d", i+1)
+				name := assertName() + fmt.Sprintf("/%d", i+1)
 				if err != nil {
 					st.bindFail(name, err)
 					continue
@@ -1815,7 +1857,7 @@ func (e *Engine) runHooks(st *State, in ssa.Instruction, t callTarget, after boo
 			case "assume":
 				tm, err := st.evalClause(env, h.Cl)
 				if err != nil {
-					st.bindFail(st.ctx.oblName(in, "assert")+"/assume", err)
+					st.bindFail(assertName()+"/assume", err)
 					continue
 				}
 				st.ctx.note("site-specific assumption in %s at call %s: %s", funcKey(st.fr.fn), key, h.Cl.Text)
@@ -1824,7 +1866,7 @@ func (e *Engine) runHooks(st *State, in ssa.Instruction, t callTarget, after boo
 				// site-specific frame of a callee that acts through a callback: the named
 				// variables / fields may have any value afterwards (listed as an assumption)
 				if err := st.havocNamed(env, h.Var); err != nil {
-					st.bindFail(st.ctx.oblName(in, "assert")+"/havoc", err)
+					st.bindFail(assertName()+"/havoc", err)
 				} else {
 					st.ctx.note("site-specific frame in %s at call %s: %s may change (callback)", funcKey(st.fr.fn), key, h.Var)
 				}
@@ -1833,7 +1875,7 @@ func (e *Engine) runHooks(st *State, in ssa.Instruction, t callTarget, after boo
 					defer func() {
 						if r := recover(); r != nil {
 							if se, ok := r.(specError); ok {
-								st.bindFail(st.ctx.oblName(in, "assert")+"/ghost", fmt.Errorf("%s: %s", h.Cl.Text, se.msg))
+								st.bindFail(assertName()+"/ghost", fmt.Errorf("%s: %s", h.Cl.Text, se.msg))
 								return
 							}
 							panic(r)
